@@ -47,10 +47,15 @@ def correspondence(ctx):
     ctx.sample({"classes": NONAMP, "states": "white noise", "dts": [1.0, 37.0, 1e3, 1e6]})
 
 
-def probe_norm(name, D, N, dt, seed, steps=1):
+def probe_norm(name, D, N, dt, seed, steps=1, forced=None):
     import jax.numpy as jnp
     rng = np.random.default_rng(seed)
-    spec = S.registry()[name](rng, D, N, 0)
+    S.FORCED_FLAGS.clear()
+    S.FORCED_FLAGS.update(forced or {})
+    try:
+        spec = S.registry()[name](rng, D, N, 0)
+    finally:
+        S.FORCED_FLAGS.clear()
     spec.dt = dt
     st = spec.build()
     u = rng.normal(size=(1,) + (N,) * D)
@@ -104,12 +109,13 @@ def probe_norm_anisotropic(name, D, N, dt, seed, kind=None):
     return {"ok": bool(ratio <= 1 + 1e-12), "ratio": ratio, "matrix": A.tolist(), "L": L}
 
 
-def probe_wave_energy(D, N, dt, seed):
+def probe_wave_energy(D, N, dt, seed, L=None):
     import jax.numpy as jnp
     import exponax as ex
     from exponax import spectral as sp
     rng = np.random.default_rng(seed)
-    L, c = float(rng.uniform(1, 6)), float(rng.uniform(0.3, 2))
+    L0, c = float(rng.uniform(1, 6)), float(rng.uniform(0.3, 2))
+    L = L0 if L is None else float(L)    # also domains longer than 2π: scaled wavenumbers (2π/L)|k| below one
     st = ex.stepper.Wave(D, L, N, dt, speed_of_sound=c)
     u = S.random_state(rng, 2, D, N, "smooth") if N % 2 == 0 else rng.normal(size=(2,) + (N,) * D)
 
@@ -129,14 +135,23 @@ def probe_wave_energy(D, N, dt, seed):
 def oracle(ctx, deep):
     fails = []
     cases = [(1, 8), (1, 9), (2, 6), (2, 7), (3, 5)] if not deep else [(1, n) for n in range(3, 20)] + [(2, n) for n in range(3, 10)] + [(3, 4), (3, 5), (3, 6)]
+    from .c01 import option_combos
     for name in NONAMP:
         for (D, N) in cases:
-            for dt in ([0.1, 1e6] if not deep else [1e-3, 0.1, 1.0, 1e3, 1e6]):
-                r = probe_norm(name, D, N, dt, ctx.seed + 2, steps=1 if not deep else 5)
-                ctx.count(("oracle_norm", name, D, N, dt))
-                if not r["ok"]:
-                    fails.append({"key": f"C11:norm:{name}", "what": f"{name} (D={D}, N={N}, dt={dt}) amplifies / does not preserve as documented: {r}",
-                                  "probe": "norm", "args": {"name": name, "D": D, "N": N, "dt": dt, "seed": ctx.seed + 2}, "observed": r})
+            # every combination of the class's boolean options / argument forms (a spatially-mixing flag whose branch
+            # has the wrong sign is only seen when that flag is set): all of them on the first 1-D and 2-D case
+            combos = option_combos(name, D, N, ctx.seed + 2) if (D, N) in (cases[0], (2, 6)) or deep else [None]
+            hit = False
+            for forced in combos:
+                for dt in ([0.1, 1e6] if not deep else [1e-3, 0.1, 1.0, 1e3, 1e6]):
+                    r = probe_norm(name, D, N, dt, ctx.seed + 2, steps=1 if not deep else 5, forced=forced)
+                    ctx.count(("oracle_norm", name, D, N, dt, repr(forced)))
+                    if not r["ok"]:
+                        fails.append({"key": f"C11:norm:{name}", "what": f"{name} (D={D}, N={N}, dt={dt}, options {forced}) amplifies / does not preserve as documented: {r}",
+                                      "probe": "norm", "args": {"name": name, "D": D, "N": N, "dt": dt, "seed": ctx.seed + 2, "forced": forced}, "observed": r})
+                        hit = True
+                        break
+                if hit:
                     break
     for name in ("Diffusion", "AdvectionDiffusion"):
         for (D, N) in ([(2, 7), (2, 8), (3, 5)] if not deep else [(2, 6), (2, 7), (2, 8), (2, 9), (3, 4), (3, 5)]):
@@ -146,12 +161,12 @@ def oracle(ctx, deep):
                 if not r["ok"]:
                     fails.append({"key": f"C11:norm-anisotropic:{name}", "what": f"{name} with a strongly anisotropic SPD diffusivity (D={D}, N={N}, dt={dt}) amplifies white noise: {r}"[:400],
                                   "probe": "norm_anisotropic", "args": {"name": name, "D": D, "N": N, "dt": dt, "seed": ctx.seed + D + N, "kind": kind}, "observed": r})
-    for (D, N) in cases[:5]:
-        r = probe_wave_energy(D, N, 0.7, ctx.seed)
-        ctx.count(("oracle_wave_energy", D, N))
+    for (D, N), L in [(c_, L_) for c_ in cases[:5] for L_ in (None, 10.0, 50.0)]:
+        r = probe_wave_energy(D, N, 0.7, ctx.seed, L)
+        ctx.count(("oracle_wave_energy", D, N, L))
         if not r["ok"]:
-            fails.append({"key": "C11:wave-energy", "what": f"Wave (D={D}, N={N}) does not conserve the wave energy: {r}",
-                          "probe": "wave_energy", "args": {"D": D, "N": N, "dt": 0.7, "seed": ctx.seed}, "observed": r})
+            fails.append({"key": "C11:wave-energy", "what": f"Wave (D={D}, N={N}, L={L if L else 'random in (1,6)'}) does not conserve the wave energy: {r}",
+                          "probe": "wave_energy", "args": {"D": D, "N": N, "dt": 0.7, "seed": ctx.seed, "L": L}, "observed": r})
     seen, out = set(), []
     for f in fails:
         if f["key"] not in seen:
